@@ -1,4 +1,4 @@
-import CardVerif.Spec.GinMeldRules
+import CardModel.Spec.GinMeldRules
 import CardVerif.Proofs.MeldEnum
 import CardVerif.Proofs.MeldSearch
 /-!
